@@ -83,7 +83,7 @@ def placement(im):
 
 
 def tags(a):
-    return np.asarray(a).astype(np.int64).tolist()
+    return np.round(np.asarray(a, dtype=float)).astype(np.int64).tolist()
 
 
 def slice_events(darsia, rng, shape, table, tid):
@@ -94,24 +94,28 @@ def slice_events(darsia, rng, shape, table, tid):
     img, o, arr = build_image(darsia, rng, shape, h, rng.choice(["default", "user", "user"]), "scalar", table)
     for c in range(n):
         name = "xyz"[c]
-        for mode in ["sum"]:
-            byindex, byindexmeta = [], []
+        for mode in ["sum", "average"]:
+            byindex, byindexmeta, plain = [], [], []
             for m in range(n):
-                r = safe(darsia.reduce_axis, img, m, mode)
-                byindex.append(tags(r.img) if r is not None else "ERR")
+                # the matrix index as a Python int or as a numpy integer (np.argmax, loops over np.arange)
+                r = safe(darsia.reduce_axis, img, m if rng.random() < 0.5 else np.int64(m), mode)
+                sc = shape[m] if mode == "average" else 1
+                byindex.append(tags(r.img * sc) if r is not None else "ERR")
                 byindexmeta.append(placement(r) if r is not None else [])
+                plain.append(tags(arr.sum(axis=m)))        # the plain array reduction along that axis
             r = safe(darsia.reduce_axis, img, name, mode)
+            scn = shape[[m for m in range(n) if table[m][0] - 1 == c][0]] if mode == "average" else 1
             ev.append({"op": "reduce", "tid": tid, "n": n, "c": c, "shape": list(shape), "mode": mode,
                        "bynamemeta": placement(r) if r is not None else [], "byindexmeta": byindexmeta,
-                       "byname": tags(r.img) if r is not None else [], "bynameok": int(r is not None),
-                       "byindex": [b if b != "ERR" else [] for b in byindex], "byindexok": [int(b != "ERR") for b in byindex]})
+                       "byname": tags(r.img * scn) if r is not None else [], "bynameok": int(r is not None),
+                       "byindex": [b if b != "ERR" else [] for b in byindex], "byindexok": [int(b != "ERR") for b in byindex], "plain": plain})
         # slices: cut through the centre of voxel q along the matrix axis belonging to name c
         m_of_c = [m for m in range(n) if table[m][0] - 1 == c][0]
         for q in range(shape[m_of_c]):
             byindex, byindexmeta = [], []
             for m in range(n):
                 if q < shape[m]:
-                    r = safe(lambda: img.slice(q, m))
+                    r = safe(lambda: img.slice(q, m if rng.random() < 0.5 else np.int64(m)))
                     byindex.append(tags(r.img) if r is not None else "ERR")
                     byindexmeta.append(placement(r) if r is not None else [])
                 else:
@@ -125,7 +129,8 @@ def slice_events(darsia, rng, shape, table, tid):
                        "bynamemeta": placement(r) if r is not None else [], "byindexmeta": byindexmeta,
                        "byname": tags(r.img) if r is not None else [], "bynameok": int(r is not None),
                        "byindex": [b if b not in ("ERR", "n/a") else [] for b in byindex],
-                       "byindexok": [int(b != "ERR") for b in byindex]})
+                       "byindexok": [int(b != "ERR") for b in byindex],
+                       "plain": [tags(arr.take(q, axis=m)) if q < shape[m] else [] for m in range(n)]})
     return ev
 
 
